@@ -98,7 +98,7 @@ type C02Case struct {
 }
 
 var (
-	c02Status  = []int{200, 200, 200, 201, 204, 206, 299, 301, 304, 400, 404, 500, 503, 599}
+	c02Status  = []int{200, 200, 200, 201, 202, 203, 204, 205, 206, 207, 226, 299, 300, 301, 302, 303, 304, 307, 308, 400, 401, 403, 404, 410, 418, 429, 451, 500, 501, 502, 503, 504, 599}
 	c02Reasons = []string{"OK", "", "Custom Reason", "All Good (really)", "Not Found"}
 	c02RNames  = []string{"X-R1", "x-r2", "Set-Cookie", "Set-Cookie", "Cache-Control", "ETag", "Vary", "X-Dup", "x-dup", "Location", "Content-Language", "X-H"}
 	c02RVals   = []string{"1", "a=b; Path=/; HttpOnly", "no-cache, max-age=0", "W/\"abc\"", "Accept-Encoding", "a b", "http://x.test/y?z", "en, de"}
